@@ -134,37 +134,57 @@ type unit struct{ from, to, w int } // glyph/atom range [from,to), width px
 
 // flags of the constructs that occur in the tokens covering glyph positions [a,b] (used to pin known
 // deviations to a construct): S start edge>0, R end edge>0, A inline-block inside a span, E space just
-// inside a span edge, N nesting depth>=2, B <br>, V vertical-align other than baseline
+// inside a span edge, N nesting depth>=2, B <br>, V vertical-align set, T vertical-align top or bottom
 func constructs(p para, a, b int) string {
-	n, depth := 0, 0
+	n := 0
 	fl := map[byte]bool{}
+	var stack []string // html of the spans open at the current token
+	va := func(html string) {
+		if strings.Contains(html, "vertical-align") {
+			fl['V'] = true
+		}
+		if strings.Contains(html, "vertical-align:top") || strings.Contains(html, "vertical-align:bottom") {
+			fl['T'] = true
+		}
+	}
+	entered := false
 	for i, t := range p.toks {
 		in := n >= a && n <= b
+		if in && !entered {
+			entered = true
+			// the inline boxes that enclose the start of the range count too (their fragments are on the line)
+			for _, h := range stack {
+				va(h)
+			}
+			if len(stack) >= 2 {
+				fl['N'] = true
+			}
+		}
 		switch t.k {
 		case tOpen:
-			depth++
+			stack = append(stack, t.html)
 			if in {
 				if t.n > 0 {
 					fl['S'] = true
 				}
-				if depth >= 2 {
+				if len(stack) >= 2 {
 					fl['N'] = true
 				}
-				if strings.Contains(t.html, "vertical-align") {
-					fl['V'] = true
-				}
+				va(t.html)
 			}
 		case tClose:
 			if in && t.n > 0 {
 				fl['R'] = true
 			}
-			depth--
+			if len(stack) > 0 {
+				stack = stack[:len(stack)-1]
+			}
 		case tAtom:
-			if in && depth > 0 {
+			if in && len(stack) > 0 {
 				fl['A'] = true
 			}
-			if in && strings.Contains(t.html, "vertical-align") {
-				fl['V'] = true
+			if in {
+				va(t.html)
 			}
 		case tBr:
 			if in {
@@ -183,7 +203,7 @@ func constructs(p para, a, b int) string {
 		}
 	}
 	s := ""
-	for _, c := range []byte("SRAENBV") {
+	for _, c := range []byte("SRAENBVT") {
 		if fl[c] {
 			s += string(c)
 		}
@@ -200,6 +220,8 @@ func classifyJ1(p para, engine, mode string, a, b int) string {
 	cs := constructs(p, a, b)
 	has := func(c string) bool { return strings.Contains(cs, c) && cs != "plain" }
 	switch {
+	case mode != "normal" && has("B"):
+		return "wrapmode-br-not-honoured" // KF11-12
 	case mode != "normal" && boxBoundaryInside(p, a, b):
 		return "wrapmode-not-applied-after-box-boundary" // KF11-10
 	case engine == "gotext" && p.endsWithSpace():
@@ -214,6 +236,74 @@ func classifyJ1(p para, engine, mode string, a, b int) string {
 		return "space-inside-span-edge" // KF11-5
 	case has("B") && p.spaceBeforeBr():
 		return "space-before-br" // KF11-1
+	case mode == "normal" && has("R") && !lastTextNodeBreakable(p, a, b):
+		return "end-edge-after-unbreakable-last-text" // KF11-14
+	}
+	return engine + ":" + mode + ":" + cs
+}
+
+// lastTextNodeBreakable: the text node that holds the last glyph of range [a,b) has a break opportunity
+// (a collapsible space) inside the range.
+func lastTextNodeBreakable(p para, a, b int) bool {
+	n := 0
+	last := -1
+	for i, t := range p.toks {
+		switch t.k {
+		case tWord:
+			if n < b && n+t.n >= b {
+				last = i
+			}
+			n += t.n
+		case tAtom:
+			if n+1 == b {
+				return false // the range ends with an inline-block
+			}
+			n++
+		}
+	}
+	if last < 0 {
+		return false
+	}
+	// walk back inside the same text node
+	m := b
+	for i := last; i >= 0; i-- {
+		switch p.toks[i].k {
+		case tWord:
+			if i == last {
+				m = b - min(p.toks[i].n, b-a)
+			} else {
+				m -= p.toks[i].n
+			}
+		case tSpace:
+			if m > a {
+				return true
+			}
+		default:
+			return false
+		}
+	}
+	return false
+}
+
+// classifyJ2: a unit cut although it fits an empty line, pinned to the construct on the line
+func classifyJ2(p para, engine, mode string, a, b int, u unit) string {
+	cs := constructs(p, min(a, u.from), max(b, u.to))
+	n := 0
+	for _, t := range p.toks {
+		if t.k == tAtom {
+			if n >= a && n < b {
+				return "wrapmode-cut-beside-inline-block" // KF11-11
+			}
+			n++
+		} else if t.k == tWord {
+			n += t.n
+		}
+	}
+	switch {
+	case strings.Contains(cs, "E"):
+		return "space-inside-span-edge" // KF11-5
+	case strings.Contains(cs, "S"):
+		return "span-left-edge" // KF11-2
 	}
 	return engine + ":" + mode + ":" + cs
 }
@@ -319,7 +409,11 @@ func (rn *runner) judgeCase(p para, c config, seed uint64) error {
 			}
 			rn.seen[k]++
 			rn.out.Hit("J:" + op + ":" + key)
-			if rn.seen[k] > 2 {
+			keep := 3
+			if strings.Contains(key, "-") && !strings.HasPrefix(key, "pango:") && !strings.HasPrefix(key, "gotext:") {
+				keep = 1 // classified (known) class: one witness is enough, res.Result keeps 40 findings at most
+			}
+			if rn.seen[k] > keep {
 				return
 			}
 			if os.Getenv("C11_DEBUG") != "" {
@@ -347,9 +441,20 @@ func (rn *runner) judgeCase(p para, c config, seed uint64) error {
 		a := 0
 	J3:
 		for i, l := range ls {
+			cs := constructs(p, a, a+l.cnt)
+			for _, b := range l.boxes {
+				if b.bottom-b.top > l.h+eps {
+					report("J3-height", cs, fmt.Sprintf("line %d is %v high but its %s is %v high", i, l.h, b.what, b.bottom-b.top))
+					break J3
+				}
+			}
 			for _, b := range l.boxes {
 				if b.top < l.y-eps || b.bottom > l.y+l.h+eps {
-					report("J3-inside", constructs(p, a, a+l.cnt), fmt.Sprintf("line %d is [%v,%v] but its %s is [%v,%v]", i, l.y, l.y+l.h, b.what, b.top, b.bottom))
+					key := cs
+					if strings.Contains(cs, "T") {
+						key = "valign-top-bottom-subtree-misplaced" // KF11-13
+					}
+					report("J3-inside", key, fmt.Sprintf("line %d is [%v,%v] but its %s is [%v,%v]", i, l.y, l.y+l.h, b.what, b.top, b.bottom))
 					break J3
 				}
 			}
@@ -363,7 +468,7 @@ func (rn *runner) judgeCase(p para, c config, seed uint64) error {
 				u := unitAt(b)
 				if !(anywhere && u.w > c.width) {
 					why := fmt.Sprintf("line %d ends after %d glyphs/atoms, inside an unbreakable unit (glyphs %d..%d, %dpx wide, container %dpx)", i, b, u.from, u.to, u.w, c.width)
-					report("J2-midword", e.name+":"+mode+":"+constructs(p, u.from, u.to), why)
+					report("J2-midword", classifyJ2(p, e.name, mode, a, b, u), why)
 					break
 				}
 			}
